@@ -107,6 +107,18 @@ func c13Check(key, pt []byte, sector uint64, inplace bool, extra int) error {
 		return fmt.Errorf("Encrypt(key=%x, sector=%#x, %d blocks, in-place:%v) differs from IEEE 1619 XTS-AES at byte %d (block %d): got %x want %x",
 			key, sector, len(pt)/16, inplace, i, i/16, ct[i/16*16:i/16*16+16], want[i/16*16:i/16*16+16])
 	}
+	if !inplace {
+		// one destination reused for consecutive sectors (it holds the previous
+		// sector's ciphertext when the next call starts)
+		dst := filled(len(pt))
+		for i, sec := range []uint64{sector ^ 1, sector} {
+			c.Encrypt(dst, pt, sec)
+			w, _ := refnacl.XTS(key, pt, sec, false)
+			if !bytes.Equal(dst, w) {
+				return fmt.Errorf("Encrypt(key=%x, sector=%#x, %d blocks) into a reused destination (call %d) differs from IEEE 1619 in block %d", key, sec, len(pt)/16, i+1, firstDiff(dst, w)/16)
+			}
+		}
+	}
 	back, err := c13Run(c, true, ct, sector, inplace, extra)
 	if err != nil {
 		return err
@@ -143,6 +155,7 @@ func TestC13(t *testing.T) {
 	}
 
 	rapid.Check(t, func(rt *rapid.T) {
+		stc := setStale(rt)
 		key, kc := c13Key(rt)
 		sector, sc := c13Sector(rt)
 		var nblocks int
@@ -181,12 +194,13 @@ func TestC13(t *testing.T) {
 		if bucket > 16 {
 			bucket = 16 + nblocks/16
 		}
-		c.Case(nblocks >= 9 || sector >= 1<<32, fmt.Sprintf("%s|%s|%d|%v", kc, sc, bucket, inplace), kc, sc, bc, fc, fmt.Sprintf("inplace=%v", inplace))
+		c.Case(nblocks >= 9 || sector >= 1<<32, fmt.Sprintf("%s|%s|%d|%v", kc, sc, bucket, inplace), kc, sc, bc, fc, stc, fmt.Sprintf("inplace=%v", inplace))
 		if c.WantSample() {
 			c.Sample(map[string]any{"key": ev.Hex(key), "sector": fmt.Sprintf("%#x", sector), "blocks": nblocks, "inplace": inplace, "plaintext": ev.Hex(pt)})
 		}
 	})
 
+	staleSeed = 0x9e3779b97f4a7c15
 	// Directed: boundary sectors x every block count 1..N with fixed keys.
 	sectors := []uint64{0, 1, 0xff, 1<<32 - 1, 1 << 32, 1<<56 - 1, 1 << 56, 1 << 63, 1<<64 - 1, 0x0123456789abcdef}
 	maxBlocks := ev.Scale(40, 300)
